@@ -16,6 +16,7 @@ import (
 	"sort"
 	"strconv"
 	"strings"
+	"sync"
 	"time"
 
 	"github.com/elastic/go-libaudit/v2/auparse"
@@ -971,6 +972,26 @@ func auparseFamily(ctx *Ctx) error {
 		if err != nil {
 			return err
 		}
+		var rpa struct {
+			Input []ACase `json:"input"`
+		}
+		if json.Unmarshal(b, &rpa) == nil && len(rpa.Input) > 0 {
+			// a history: the first record's results are looked at again after the later ones were parsed
+			var first aObs
+			for i, c := range rpa.Input {
+				o := runAImpl(c)
+				if i == 0 {
+					first = o
+				}
+				fmt.Printf("parsed %d: %q\n", i, c.input())
+			}
+			if first.Msg != nil {
+				d, e := first.Msg.Data()
+				tg, _ := first.Msg.Tags()
+				fmt.Printf("first result at the time : %s\nthe map it handed out now : %s\nData()/Tags() again        : %s\n", first.Out, renderAData(first.Data, first.Tags, first.DErr), renderAData(d, tg, e))
+			}
+			return nil
+		}
 		var rp struct {
 			Input ACase `json:"input"`
 		}
@@ -981,6 +1002,48 @@ func auparseFamily(ctx *Ctx) error {
 		rep, _ := m.Ask1(aModelLine(rp.Input))
 		fmt.Printf("input: %q\nimpl : %s\nmodel: %s\npanic: %s\nC04: %s\nC12: %s\n", rp.Input.input(), o.Out, rep, o.Panic, c04Monitor(rp.Input, o), c12Monitor(rp.Input, o))
 		return nil
+	}
+
+	// first use under concurrency: before anything has been parsed in this process, sixteen goroutines parse and
+	// render different records (named and unnamed record types, hex and quoted values) at the same time. Whatever the
+	// library initialises or memoises lazily is then first touched concurrently; a fatal runtime error ends the
+	// process and is reported by ./check with the journalled block and the goroutine stacks.
+	{
+		guardEnter(map[string]string{"block": "first use from 16 goroutines: ParseLogLine, Parse, Data, Tags, ToMapStr on different records"})
+		var wg sync.WaitGroup
+		errs := make(chan string, 16)
+		for g := 0; g < 16; g++ {
+			wg.Add(1)
+			go func(g int) {
+				defer wg.Done()
+				defer func() {
+					if r := recover(); r != nil {
+						errs <- fmt.Sprint(r)
+					}
+				}()
+				for i := 0; i < 400; i++ {
+					typ := []int{1300, 1309, 1306, 1327, 1400, 1112, 3000 + g*500 + i, 20000 + g*1000 + i, 900 + g, 1307}[i%10]
+					line := fmt.Sprintf("type=%s msg=audit(1500000%03d.%03d:%d): arch=c000003e syscall=%d success=yes exit=0 a0=%x argc=2 a1=%s a2=\"x\" saddr=0200%04X0A000001 proctitle=%s cwd=\"/w%d\" key=%s uid=%d",
+						auparse.AuditMessageType(typ).String(), g, i, g*1000+i, (g*37+i)%330, i, hexUp([]byte(fmt.Sprintf("arg %d of %d", i, g))), i, hexUp([]byte(fmt.Sprintf("p%d\x00q", g))), g, hexUp([]byte(fmt.Sprintf("k%d\x01k", i))), g)
+					if m, err := auparse.ParseLogLine(line); err == nil {
+						m.Data()
+						m.Tags()
+						m.ToMapStr()
+					}
+					if m, err := auparse.Parse(auparse.AuditMessageType(typ), line[strings.Index(line, "audit("):]); err == nil {
+						m.ToMapStr()
+					}
+				}
+			}(g)
+		}
+		wg.Wait()
+		guardLeave()
+		select {
+		case e := <-errs:
+			res.Violate(common.Violation{Kind: "monitor", Clause: "C05: panic during the first, concurrent use of the parser: " + e, Input: "first use from 16 goroutines"})
+		default:
+		}
+		res.Hist("concurrent first use")
 	}
 
 	type pending struct {
@@ -1015,8 +1078,50 @@ func auparseFamily(ctx *Ctx) error {
 		batch = batch[:0]
 		return nil
 	}
+	// results stay the caller's: what an earlier message reported (the map and tags it handed out, and what it answers
+	// when asked again) is looked at once more after six later records have gone through the parser
+	type keptA struct {
+		c ACase
+		o aObs
+	}
+	var ring []keptA
+	retainedA := func(o keptA, later []keptA) {
+		cl := ""
+		if got := renderAData(o.o.Data, o.o.Tags, o.o.DErr); got != o.o.Out {
+			cl = "C05: the data a message handed out changed after later records were parsed: now " + got
+		} else if idx%3 == 0 {
+			d, e := o.o.Msg.Data()
+			tg, _ := o.o.Msg.Tags()
+			if got := renderAData(d, tg, e); got != o.o.Out {
+				cl = "C05: repeated Data/Tags on an earlier message return a different result after later records were parsed: " + got
+			}
+		}
+		if cl != "" {
+			hist := []ACase{o.c}
+			for _, l := range later {
+				hist = append(hist, l.c)
+			}
+			if ctx.Prop == "C05" {
+				res.Violate(common.Violation{Kind: "monitor", Clause: cl, Input: hist, Impl: o.o.Out, Case: idx})
+			} else {
+				res.Hist("sibling_clause_failed")
+				res.Violate(common.Violation{Kind: "correspondence", Clause: "an earlier result of the implementation changed; the model's values are immutable", Input: hist, Impl: o.o.Out, Note: "on this input a clause of a sibling property fails: " + cl, Case: idx})
+			}
+		}
+	}
+	keepA := func(c ACase, o aObs) {
+		if c.Kind != "data" || o.Msg == nil || o.Err != nil || o.Panic != "" {
+			return
+		}
+		ring = append(ring, keptA{c, o})
+		if len(ring) > 6 {
+			retainedA(ring[0], ring[1:])
+			ring = ring[1:]
+		}
+	}
 	run := func(c ACase, toModel bool, nontrivial bool, tag string) {
 		o := runAImpl(c)
+		keepA(c, o)
 		res.Count(c.Kind+strconv.Itoa(c.Typ)+c.Hex, nontrivial)
 		res.Hist(tag)
 		if o.Slow {
